@@ -6,6 +6,8 @@
 #undef protected
 #include <stdlib.h>
 #include "../common/stdstreams.h"
+// layout twin of the first members of STEPfile (vptr, InstMgr & _instances, Registry & _reg)
+struct STEPfileHead { void *vptr; InstMgr *inst; Registry *reg; };
 extern "C" {
 // the STEPfile and InstMgr objects are raw storage: the three functions read _instances->maxFileId and write _fileIdIncr only
 __attribute__((noinline)) int w_incr(int maxFileId, int id, int *shifted) {
@@ -13,7 +15,7 @@ __attribute__((noinline)) int w_incr(int maxFileId, int id, int *shifted) {
     InstMgr *im = (InstMgr *)calloc(1, sizeof(InstMgr));
     im->maxFileId = maxFileId;
     // _instances is a reference member: bind it by writing the pointer into its slot (first member after the vptr, if any)
-    { InstMgr **slot = (InstMgr **)((char *)sf + (sizeof(STEPfile) >= 16 && __is_polymorphic(STEPfile) ? sizeof(void *) : 0)); *slot = im; }
+    ((STEPfileHead *)sf)->inst = im;   // typed store into the slot of the reference member (first member after the vptr)
     sf->SetFileIdIncrement();
     *shifted = sf->IncrementFileId(id);
     int r = sf->FileIdIncr();
